@@ -94,7 +94,9 @@ def make_coll(ek, elems, letters, variant):
         return None
     if ek == "str":
         strs = [nc.dec(e, letters) for e in elems]
-        return [list(strs), np.array(strs, dtype=object), pd.Series(strs, index=[3 * i + 2 for i in range(len(strs))], dtype=object)][variant % 3]
+        # (the fourth form: index labels repeated, as after pd.concat of several samples without ignore_index)
+        return [list(strs), np.array(strs, dtype=object), pd.Series(strs, index=[3 * i + 2 for i in range(len(strs))], dtype=object),
+                pd.Series(strs, index=[i % 2 for i in range(len(strs))], dtype=object)][variant % 4]
     a = ["C" + nc.dec(e[0], letters) + "F" for e in elems]
     b = ["C" + nc.dec(e[1], letters) + "W" for e in elems]
     n = len(elems)
@@ -113,6 +115,8 @@ def make_coll(ek, elems, letters, variant):
     df = pd.DataFrame({c: cols[c] for c in order})
     if variant % 2:
         df.index = [f"t{i}" for i in range(n)][::-1]
+    if variant % 6 == 3:
+        df.index = [f"sample{i % 2}" for i in range(n)]      # repeated row labels
     return df
 
 
@@ -159,7 +163,7 @@ def replay_group(ctx, docs, n):
     allowed = [d["res"] for d in docs]
     rp = dict(kind="replay", docs=docs, letters=letters)
     sampling = bool(inp["ms"]) and (len(inp["seqs"]) > inp["ms"] or (inp["two"] and len(inp["seqs2"]) > inp["ms"]))
-    variants = [n % 6, (n + 1) % 6] if inp["ek"] != "str" else [n % 3]
+    variants = [n % 6, (n + 1) % 6] if inp["ek"] != "str" else [n % 4]
     for variant in variants:
         for seed in ((n, n + 1, n + 2) if sampling else (None,)):
             ctx.case(dict(call=describe(inp, letters), variant=variant, seed=seed, allowed_outcomes=len(allowed)),
